@@ -53,10 +53,47 @@ static void mk_discover(uint8_t *f, const uint8_t *mapper, uint16_t gen) {
 
 struct targ { char name; vp_iface *it; const uint8_t *mapper; };
 
+/* "STDY": steady state.  Both per-interface records already exist (created by the main thread before the
+ * workers start); each worker then serves its own interface with a full session: Probes from distinct
+ * sources, Emit, Query, QueryLargeTlv, Discover with a new generation, Reset, several rounds.  Built with
+ * -DVP_TL=__thread the port shares no mutable object between threads, so every ThreadSanitizer report
+ * is a data race inside the core. */
+static int g_steady = 0;
+
+static void hdr(uint8_t *f, int op, const uint8_t *ed, const uint8_t *es, const uint8_t *rd, const uint8_t *rs, unsigned seq) {
+    memset(f, 0, 576);
+    memcpy(f, ed, 6); memcpy(f + 6, es, 6); f[12] = 0x88; f[13] = 0xD9; f[14] = 1; f[15] = 0; f[17] = (uint8_t)op;
+    memcpy(f + 18, rd, 6); memcpy(f + 24, rs, 6); f[30] = (uint8_t)(seq >> 8); f[31] = (uint8_t)seq;
+}
+
+static void steady_session(struct targ *a) {
+    static const uint8_t bc[6] = {255, 255, 255, 255, 255, 255};
+    uint8_t *f = a->it->recvbuf;
+    const uint8_t *own = a->it->mac;
+    vp_out = fopen("/dev/null", "w");
+    for (int round = 0; round < 4; round++) {
+        for (int k = 0; k < 300; k++) {
+            uint8_t src[6] = {2, 0x77, (uint8_t)a->name, (uint8_t)round, (uint8_t)(k >> 8), (uint8_t)k};
+            hdr(f, (k & 1) ? 4 : 3, own, src, own, src, 0);
+            parseFrame(f, a->it);
+        }
+        hdr(f, 2, own, a->mapper, own, a->mapper, 10 + round);           /* Emit, one descriptor */
+        f[32] = 0; f[33] = 1; f[34] = 1; f[35] = 0; memcpy(f + 36, own, 6); memcpy(f + 42, a->mapper, 6);
+        parseFrame(f, a->it);
+        for (int q = 0; q < 3; q++) { hdr(f, 6, own, a->mapper, own, a->mapper, 20 + q); parseFrame(f, a->it); }
+        hdr(f, 11, own, a->mapper, own, a->mapper, 30); f[32] = 0x13; parseFrame(f, a->it);
+        hdr(f, 11, own, a->mapper, own, a->mapper, 31); f[32] = 0x0E; parseFrame(f, a->it);
+        hdr(f, 0, bc, a->mapper, bc, a->mapper, 1); f[32] = 0; f[33] = (uint8_t)(6 + round); parseFrame(f, a->it);
+        if (round & 1) { hdr(f, 8, bc, a->mapper, bc, a->mapper, 0); parseFrame(f, a->it); }
+    }
+    fclose(vp_out);
+}
+
 static void *worker(void *p) {
     struct targ *a = p;
     t_name = a->name;
     mk_discover(a->it->recvbuf, a->mapper, 5);
+    if (g_steady) { pthread_barrier_wait(&g_bar); steady_session(a); return NULL; }
     if (g_free) { pthread_barrier_wait(&g_bar); parseFrame(a->it->recvbuf, a->it); return NULL; }
     parseFrame(a->it->recvbuf, a->it);
     if (t_seg == 1) { /* never reached point 1: record existed already */ end_turn(); wait_turn(); }
@@ -72,6 +109,7 @@ int main(int argc, char **argv) {
     if (argc < 2 || strlen(argv[1]) != 4) { fprintf(stderr, "usage: race <AABB|ABAB|...>\n"); return 2; }
     g_sched = argv[1];
     if (!strcmp(argv[1], "FREE")) { g_free = 1; pthread_barrier_init(&g_bar, NULL, 2); }
+    if (!strcmp(argv[1], "STDY")) { g_free = 1; g_steady = 1; pthread_barrier_init(&g_bar, NULL, 2); }
     vp_out = tmpfile();
     static const uint8_t macA[6] = {2, 0xaa, 0, 0, 0, 1}, macB[6] = {2, 0xaa, 0, 0, 0, 2};
     static const uint8_t mapA[6] = {2, 0, 0, 0, 0, 0x11}, mapB[6] = {2, 0, 0, 0, 0, 0x12}, stranger[6] = {2, 0, 0, 0, 0, 0x13};
@@ -83,9 +121,14 @@ int main(int argc, char **argv) {
     }
     struct targ ta = {'A', &vp_ifaces[0], mapA}, tb = {'B', &vp_ifaces[1], mapB};
     pthread_t pa, pb;
+    if (g_steady) {                       /* both records exist before the threads start */
+        mk_discover(vp_ifaces[0].recvbuf, mapA, 5); parseFrame(vp_ifaces[0].recvbuf, &vp_ifaces[0]);
+        mk_discover(vp_ifaces[1].recvbuf, mapB, 5); parseFrame(vp_ifaces[1].recvbuf, &vp_ifaces[1]);
+    }
     pthread_create(&pa, NULL, worker, &ta);
     pthread_create(&pb, NULL, worker, &tb);
     pthread_join(pa, NULL); pthread_join(pb, NULL);
+    if (g_steady) { printf("sched STDY done\n"); return 0; }
     size_t live_after_first = vp_live_count();
     /* sequential probes: a stranger's Discover on each interface */
     int answered[2];
